@@ -130,7 +130,7 @@ def ob_diff(e: int, ka: int, a0: int, a1: int, a2: int, kb: int, b0: int, b1: in
 
 
 def _diff(e, ka, a0, a1, a2, kb, b0, b1, b2, pos, posb):
-    if not (0 <= e < len(EDITS)) or pos < 0 or posb < 0:
+    if not (0 <= e < len(EDITS)):        # the start offsets pos / posb are arbitrary ints (also negative: they are only a base)
         return rt.SKIP
     if not (P.get("elo", 0) <= e < P.get("ehi", len(EDITS))):
         return rt.SKIP
